@@ -276,7 +276,9 @@ pub fn check(cx: &Cx, rep: &mut Report) {
                 if still_subscribed {
                     rep.premise("C09.R5.subscriber_dies_while_subscribed");
                     nontrivial = true;
-                    if !matches!(af.task_end, Some((_, _, "done"))) {
+                    // judged before the harness' cleanup phase stops the brokers
+                    let settled = ix.phase("settled").unwrap_or(u64::MAX);
+                    if !matches!(af.task_end, Some((e, _, "done")) if e < settled) {
                         rep.fail(P, "R5", "kept_alive_by_broker", format!("subscriber tag {} lost its last strong handle at #{z} while subscribed and is still alive at the end", af.tag), vec![z]);
                     }
                 }
